@@ -89,14 +89,24 @@ def runCase (hdr : List String) (body : List (List String)) : List String := Id.
     | some v, some va => Kind.ddef (assignedDefault va v)
     | some v, none => Kind.ddef v
     | none, _ => Kind.dtor
+  -- `bind-end <call|move|drop> <v>`: the controller ends the promise's life through `promise::bind()` (only for a plain promise that
+  -- is still there, and for payload types a bound argument tuple can carry): `call` / `move` = one more resolver call with value v,
+  -- sequenced after all threads, then the (by then empty) promise is destroyed; `drop` = the function object dies uncalled = `~promise`
+  let bindEnd : Option Nat := (body.find? (fun w => w.head? == some "bind-end")).bind (fun w =>
+    if (w[1]?.getD "") == "call" || (w[1]?.getD "") == "move" then (w[2]?.getD "").toNat? else none)
+  let bindOk := pwd.isNone && !assignEnd && assignFrom.isNone && tyName != "ref" && tyName != "thrower"
   let sched := (body.filter (fun w => w.head? == some "sched")).flatMap (fun w => (w.drop 1).filterMap String.toNat?)
   let n := kinds.length
   let hasD := kinds.any (· == dk)
   -- one extra (unscheduled) destructor agent at index n for the controller's post-run destruction
   let karr := kinds.toArray
-  let cfg : Cfg := { n := n, kind := fun i => if i = n then endKind else karr[i]?.getD Kind.dtor }
-  let s0 := init { cfg with n := n + 1 }
+  let bindCall : Option Nat := if bindOk && !hasD then bindEnd else none
+  let cfg : Cfg := { n := n, kind := fun i =>
+    if i = n then (match bindCall with | some v => Kind.res (RK.value v) | none => endKind)
+    else if i = n + 1 then endKind else karr[i]?.getD Kind.dtor }
+  let s0 := init { cfg with n := n + 2 }
   let s0 := if hasD then setPc s0 n Pc.done else s0
+  let s0 := if bindCall.isNone then setPc s0 (n + 1) Pc.done else s0
   let throwers := (body.filter (fun w => w.head? == some "r" || w.head? == some "w" || w.head? == some "d")).zipIdx.filterMap
     (fun (w, i) => if w == ["r", "throwv"] then some i else none)
   let fixRet (l : String) : String :=
@@ -107,14 +117,15 @@ def runCase (hdr : List String) (body : List (List String)) : List String := Id.
   let out := out0.map fixRet
   if dead then return (out.toList ++ ["deadlock", "end"])
   -- controller destroys the promise (silent: not a scheduled thread)
-  let cfg' := { cfg with n := n + 1 }
+  let cfg' := { cfg with n := n + 2 }
   let mut s := s1
   let mut lines := out
-  for _ in [0:1000] do
-    if s.pc n == Pc.done then break
-    let (s', evs) := astep cfg' s n
-    s := s'
-    lines := lines ++ ((evs.filter (fun e => !isOpEv e)).map (evStr isVoid)).toArray
+  for a in [n, n + 1] do
+    for _ in [0:1000] do
+      if s.pc a == Pc.done then break
+      let (s', evs) := astep cfg' s a
+      s := s'
+      lines := lines ++ ((evs.filter (fun e => !isOpEv e)).map (evStr isVoid)).toArray
   lines := lines.push "promise-destroyed"
   let st := if s.slot = Slot.ready then "ready" else "pending"
   let val := if s.slot = Slot.ready then obsStr isVoid (obsOf s WK.coro s.slot.seen) else "-"
